@@ -39,6 +39,7 @@ from liquid.token import TOKEN_TRUE
 from liquid.token import TOKEN_WORD
 from liquid.token import Token
 from liquid.undefined import is_undefined
+from liquid.limits import to_str
 
 from .path import Path
 from .primitive import Blank
@@ -671,7 +672,7 @@ def _contains(token: Token, left: object, right: object) -> bool:
     if not is_truthy(left) or not is_truthy(right):
         return False
     if isinstance(left, str):
-        return str(right) in left
+        return to_str(right) in left
     if isinstance(left, Collection):
         try:
             return right in left
